@@ -11,7 +11,7 @@ from ..refs import contentline as R2, fold as R3, tree
 ID = "C10"
 RULE = ("API programs from G3 (all component kinds, zoned values of several zones so that add_missing_timezones has work, parameters, repeated properties, nested "
         "unknown components): (1) to_ical() twice gives identical bytes and leaves the deep observation (R8 + parameters of every value object by identity + "
-        "errors) unchanged, also for values stored as ready-made vDatetime/vPeriod/vDDDLists/vDDDTypes objects, and identical bytes twice after the .dt of a stored value object was reassigned; (2) sorted=True: up to 24 sampled permutations of "
+        "errors) unchanged, also for values stored as ready-made value objects of 14 classes, and identical bytes twice after the .dt of a stored value object was reassigned, and identical bytes and observation after unrelated use of the library on other objects (the prelude with a fresh token); (2) sorted=True: up to 24 sampled permutations of "
         "the insertion history of distinct properties and parameters (at every nesting level) give identical bytes, while repeated properties and "
         "subcomponents keep insertion order; (3) sorted=False: the property-name sequence of every component equals first-insertion order; (4) the "
         "line sequence is a balanced BEGIN/END nesting; (5) the same program run in fresh subprocesses with PYTHONHASHSEED in {0,1,2,3,4211} (thorough: 16 "
@@ -164,6 +164,12 @@ def check_case(ctx, case):
     ev.add("X-RAW-VDDDTYPES", vDDDTypes(z))
     ev.add("X-RAW-LIST", vDDDLists([z, z]))
     ev.add("X-RAW-PERIOD", vPeriod((z, z)))
+    from icalendar import prop as P
+    from datetime import date as _date, timedelta as _tdelta
+    for nm, obj in (("X-RAW-VDATE", P.vDate(_date(2024, 5, 6))), ("X-RAW-VINT", P.vInt(7)), ("X-RAW-VTEXT", P.vText("raw")), ("X-RAW-VDURATION", P.vDuration(_tdelta(hours=1))),
+                    ("X-RAW-VURI", P.vUri("http://example.com/raw")), ("X-RAW-VCALADDRESS", P.vCalAddress("mailto:raw@example.com")), ("X-RAW-VFLOAT", P.vFloat(1.5)),
+                    ("X-RAW-VBOOLEAN", P.vBoolean(True)), ("X-RAW-VUTCOFFSET", P.vUTCOffset(_tdelta(hours=1))), ("X-RAW-VRECUR", P.vRecur({"FREQ": "DAILY", "COUNT": 3}))):
+        ev.add(nm, obj)
     before = deep_obs(cal)
     s1 = cal.to_ical()
     after = deep_obs(cal)
@@ -178,6 +184,15 @@ def check_case(ctx, case):
     prob = nesting_problem(lines_of(s1))
     if prob:
         ctx.fail("unbalanced-nesting", observed=prob, expected="balanced BEGIN/END")
+        return
+    # unrelated use of the library on *other* objects in between (the prelude again, with a token of its own) changes neither the bytes nor the tree
+    from .. import prelude
+    prelude.run("X-VERIF-LEAK-%d" % (seed % 100000))
+    s3 = cal.to_ical()
+    if s3 != s1 or deep_obs(cal) != before:
+        k = next((j for j, (x, y) in enumerate(zip(s1.split(b"\r\n"), s3.split(b"\r\n"))) if x != y), -1)
+        ctx.fail("bytes-depend-on-unrelated-calls", observed=s3.split(b"\r\n")[k][:200] if k >= 0 else "tree observation changed",
+                 expected=s1.split(b"\r\n")[k][:200] if k >= 0 else "unchanged tree")
         return
     ctx.count("purity-checks")
     # ---- a value object whose .dt was reassigned (another zone / UTC / floating) after it was stored: whatever is written, it is written twice
